@@ -174,6 +174,11 @@ func init() {
 	})
 	reg(rt+"Symbolic", func(fr *frame, args []Value) Value { return fr.e.tt.True })
 	reg(rt+"Thorough", func(fr *frame, args []Value) Value { return fr.e.tt.Bool(fr.e.cfg.Thorough) })
+	reg(rt+"CodecFaults", func(fr *frame, args []Value) Value {
+		t := args[0].(*Term)
+		fr.e.codecNoFaults = t.IsConst() && t.k == 0
+		return nil
+	})
 	reg(rt+"AllowDeadlock", func(fr *frame, args []Value) Value { fr.e.allowDeadlock = true; return nil })
 	reg(rt+"AllowPanic", func(fr *frame, args []Value) Value { fr.e.allowPanic = true; return nil })
 
